@@ -154,25 +154,32 @@ def fitVocabulary (order : List (Entry γ) → List (Entry γ)) (words : List γ
 def lookupIdx (voc : List (Entry γ)) (g : γ) : Option Nat :=
   (voc.find? fun e => e.1 == g).map fun e => e.2.1
 
+/-- body of the counting loop of `analyze_document`:
+`if let Some((idx, _)) = vocabulary.get(&item) { term_frequencies[idx] += 1 }` -/
+def countStep (voc : List (Entry γ)) (row : List Nat) (g : γ) : List Nat :=
+  match lookupIdx voc g with
+  | some j => row.modify j (· + 1)
+  | none => row
+
 /-- `analyze_document`: dense row of term frequencies.  `get_mut(idx).unwrap()`
 cannot fail because every stored index is `< vocabulary.len()` (theorem
 `column_is_vocab_index`); `List.modify` out of range would leave the row alone. -/
 def analyzeDocument (F : Fitted γ) (grams : List γ) : List Nat :=
-  grams.foldl (fun row g =>
-    match lookupIdx F.vocabulary g with
-    | some j => row.modify j (· + 1)
-    | none => row) (List.replicate F.vocabulary.length 0)
+  grams.foldl (countStep F.vocabulary) (List.replicate F.vocabulary.length 0)
 
 /-- `doc_freqs[i] += 1` for every non-zero cell of the row -/
 def bumpDocFreqs (dfs row : List Nat) : List Nat :=
   List.zipWith (fun d c => if c > 0 then d + 1 else d) dfs row
 
+/-- one iteration of the loop of `get_term_and_document_frequencies`: append the row, bump the
+document frequencies -/
+def tdStep (F : Fitted γ) (st : List (List Nat) × List Nat) (d : List γ) : List (List Nat) × List Nat :=
+  let row := analyzeDocument F d
+  (st.1 ++ [row], bumpDocFreqs st.2 row)
+
 /-- `get_term_and_document_frequencies`: (dense view of the CSR matrix, document frequencies) -/
 def termAndDocFreqs (F : Fitted γ) (docs : List (List γ)) : List (List Nat) × List Nat :=
-  docs.foldl (fun (st : List (List Nat) × List Nat) d =>
-      let row := analyzeDocument F d
-      (st.1 ++ [row], bumpDocFreqs st.2 row))
-    ([], List.replicate F.vocabulary.length 0)
+  docs.foldl (tdStep F) ([], List.replicate F.vocabulary.length 0)
 
 /-- `CountVectorizer::transform(...).to_dense()` -/
 def transform (F : Fitted γ) (docs : List (List γ)) : List (List Nat) :=
